@@ -683,7 +683,11 @@ def evaluate(trace, detail=False):
     base = results[trace["order"][0]]
     for cfgname in trace["order"][1:]:
       r = results[cfgname]
-      if r["pyi"] != base["pyi"]:
+      if r["pyi"] != base["pyi"] and (
+          _stub_meaning(r["pyi"], a_anc) != _stub_meaning(base["pyi"], a_anc)):
+        # same TYPES are demanded, not the same text: B's own optimizer may or
+        # may not absorb a class into a base class of the same union depending
+        # on how much of the hierarchy it happens to know in a configuration
         violation = {"class": "CONFIG_DIFF", "oracle": "stub_equal_across_configs",
                      "what": "B's stub differs between %s and %s" % (
                          trace["order"][0], cfgname),
@@ -700,6 +704,37 @@ def evaluate(trace, detail=False):
   measure = kernel.digest([sorted(expect.items()), trace["chain"]])
   return {"violation": violation, "stats": stats, "digest": log.digest(),
           "nontrivial": len(expect) >= 3, "measure": measure}
+
+
+def _stub_meaning(text, ancestors):
+  """A stub as {name: normalised type} (constants, function results and
+  parameter annotations, class members one level deep); None if unreadable."""
+  try:
+    info = read_stub(text)
+  except SyntaxError:
+    return None
+  al = typenorm.import_aliases(info.get("imports", []))
+
+  def n(ann):
+    if ann is None:
+      return None
+    try:
+      return typenorm.norm(ann, ("a",), al, ancestors)
+    except SyntaxError:
+      return ("unparsed", ann)
+
+  def table(t, pre):
+    out = {}
+    for k, v in t["consts"].items():
+      out[pre + k] = n(v)
+    for k, fs in t["funcs"].items():
+      out[pre + k + "()"] = [(n(f["ret"]), [(p_["name"], n(p_["ann"]), p_["default"])
+                                            for p_ in f["params"]]) for f in fs]
+    for k, c in t["classes"].items():
+      out[pre + k + "{}"] = sorted(c.get("bases", []))
+      out.update(table(c, pre + k + "."))
+    return out
+  return table(info, "")
 
 
 def _covers(seen, inferred, ancestors=None):
